@@ -386,18 +386,21 @@ def _flag(v, rep):
     return {'bool': bool(v), 'int': int(v), 'npbool': np.bool_(v), 'arr0d': np.array(bool(v))}[rep]
 
 
-def _ab_call(rows, magnitude, ivar, rep='bool'):
+def _ab_call(rows, magnitude, ivar, rep='bool', order='='):
     from pydl.photoop.sdssio import sdssflux2ab
     magnitude, ivar = _flag(magnitude, rep), _flag(ivar, rep)
     a = np.array(rows, dtype=np.float64)
     if a.ndim != 2:
         a = a.reshape(len(rows), -1)
+    if order != '=':
+        # the same numbers in the byte order a FITS table column arrives in (big-endian), or explicitly little-endian
+        a = a.astype(np.dtype(np.float64).newbyteorder(order))
     before = _bits(a)
     try:
         r = sdssflux2ab(a, magnitude=magnitude, ivar=ivar)
     except Exception as e:
         return {'err': core.exc_kind(e)}, before == _bits(a)
-    return {'ok': [[core.f2b(x) for x in row] for row in r]}, before == _bits(a)
+    return {'ok': [[core.f2b(float(x)) for x in row] for row in r]}, before == _bits(a)
 
 
 def _ab_cases(ctx):
@@ -416,7 +419,7 @@ def _ab_cases(ctx):
                 rows.append([rng.choice([0.0, 1.0, -1.0]) * 10 ** rng.uniform(-3, 5) if rng.random() < 0.3
                              else 10 ** rng.uniform(-3, 5) for _ in range(5)])
         cases.append({'stream': 'ab', 'mode': mode, 'rows': [[core.f2b(x) for x in r] for r in rows],
-                      'flagrep': rng.choice(['bool', 'bool', 'int', 'npbool', 'arr0d'])})
+                      'flagrep': rng.choice(['bool', 'bool', 'int', 'npbool', 'arr0d']), 'byteorder': rng.choice(['=', '=', '>', '<'])})
     for ncol in (1, 2, 4, 6, 10):
         for mode in ('flux', 'mag', 'ivar'):
             cases.append({'stream': 'ab', 'mode': mode, 'rows': [[core.f2b(rng.uniform(1, 20)) for _ in range(ncol)] for _ in range(2)]})
@@ -433,7 +436,8 @@ def _ab_run(ctx, cases, use_model=True):
     for c, m in zip(cases, model):
         mag, iv = flags(c['mode'])
         rows = [[core.b2f(b) for b in r] for r in c['rows']]
-        impl, untouched = _ab_call(rows, mag, iv, c.get('flagrep', 'bool'))
+        impl, untouched = _ab_call(rows, mag, iv, c.get('flagrep', 'bool'), c.get('byteorder', '='))
+        ctx.count('ab:byteorder' + c.get('byteorder', '='))
         ctx.seen(c, nontrivial='ok' in impl)
         ctx.count('ab:%s:%s' % (c['mode'], 'err:' + impl['err'] if 'err' in impl else 'ok'))
         ctx.count('ab:flags-as-' + c.get('flagrep', 'bool'))
